@@ -177,6 +177,9 @@ def run(ctx):
     clocks = ("float",) if quick else ("float", "int", "duration")
     tasks = [(N, i, nchunks, True, clocks, (False, True))
              for i in range(nchunks)]
+    # replications that do not start at zero / an int clock beyond 2^53
+    tasks += [(2, i, 4, True, ("float@100", "int@2^60", "duration@1h"),
+               (False,)) for i in range(4)]
     if not quick:
         tasks += [(4, i, nchunks * 4, False, ("float",), (False,))
                   for i in range(nchunks * 4)]
